@@ -93,6 +93,12 @@ CLAIMS["C07"] = ("symbolic execution (symx) of the real IdentityCMap(.Byte).deco
          "syntaxes with symbolic codes and widths give exactly the listed code->width entries; the CMapDB caches return the right map for every 3-call history. NOT claimed: the predefined CJK tables and the "
          "'agrees with platform codecs' clause (static data), embedded TrueType cmap tables.",
          "4.C07")
+CLAIMS["C10"] = ("bounded symbolic execution (symx) of the plumbing around the cipher primitives: init_params/is_*able, decipher_all + getobj, unpad_aes/decrypt_aes128/256, decrypt_rc4 key material, V4 decrypt - with md5/AES/RC4 replaced by recording stubs",
+         "PARTIAL by design: key derivation, password acceptance/rejection and cipher correctness (MD5/SHA/AES/RC4 loops behind C code) are NOT claimed. Claimed for all values within bounds: permission flags equal "
+         "bits 3,4,5 of every signed 32-bit P; every non-empty string leaf of an object is deciphered exactly once with the enclosing (objid, genno) and object-stream members not at all, with caching on or off; "
+         "PKCS#5 padding of every length 1..16 is removed from symbolic plaintext; the per-object key material is key + objid[0:3] + genno[0:2] little-endian (+ sAlT) for symbolic objid/genno; "
+         "EncryptMetadata=false bypasses exactly /Type /Metadata streams.",
+         "4.C10")
 NA = {}
 def main():
     props = [json.loads(l) for l in open(os.path.join(ROOT, "properties.jsonl"))]
